@@ -156,6 +156,20 @@ func verifStartsTag(s []byte) bool {
 	return len(s) >= 3 && s[0] == '<' && s[1] == '/' && verifIsLetter(s[2])
 }
 
+// verifMarkupProbeOvershoot recognises one specific failure shape, so that it gets a key of its
+// own and any other way of exceeding the limit keeps the generic keys: the limit n was reached
+// while the tokenizer was still matching "<!DOCTYPE" (any case) or "<![CDATA[" byte by byte
+// (so 5 <= n <= 9 and the n-1 raw bytes before the one that reached the limit are a prefix of
+// one of the two; that n-th byte itself is arbitrary, it may be the mismatch), and the token
+// nevertheless carries one or two further bytes. Real comments ("<!--") never match.
+func verifMarkupProbeOvershoot(raw []byte, n int) bool {
+	if n < 5 || n > 9 || len(raw) <= n || len(raw) > n+2 {
+		return false
+	}
+	head := raw[:n-1]
+	return bytes.EqualFold(head, []byte("<!DOCTYPE")[:n-1]) || bytes.Equal(head, []byte("<![CDATA[")[:n-1])
+}
+
 type verifTokRun struct {
 	raws    [][]byte
 	types   []TokenType
@@ -323,7 +337,7 @@ func TestVerif_C39(t *testing.T) {
 		for i, raw := range lim.raws {
 			if len(raw) > maxBuf {
 				key := "maxbuf-raw-exceeds-limit"
-				if lim.types[i] == CommentToken && bytes.HasPrefix(raw, []byte("<!")) && len(raw) <= maxBuf+2 && i == len(lim.raws)-1 {
+				if lim.types[i] == CommentToken && i == len(lim.raws)-1 && verifMarkupProbeOvershoot(raw, maxBuf) {
 					// "<!DOCTYPE"/"<![CDATA[" probing that keeps reading after the limit was hit
 					key = "maxbuf-markup-declaration-overshoots-limit"
 				}
@@ -354,7 +368,7 @@ func TestVerif_C39(t *testing.T) {
 			// (a token of exactly maxBuf bytes may be returned whole: nothing beyond the limit was buffered)
 			r.Event("maxbuf_limit_had_to_trigger", 1)
 			if last := len(lim.raws) - 1; lim.err != ErrBufferExceeded && last >= 0 && lim.types[last] == CommentToken &&
-				bytes.HasPrefix(lim.raws[last], []byte("<!")) && len(lim.raws[last]) > maxBuf && len(lim.raws[last]) <= maxBuf+2 {
+				verifMarkupProbeOvershoot(lim.raws[last], maxBuf) {
 				c.Violation("maxbuf-markup-declaration-eof-masks-limit", "SetMaxBuf(%d): last token %q has %d raw bytes and the run ended with Err()=%v instead of ErrBufferExceeded", maxBuf, verifClip(lim.raws[last], 60), len(lim.raws[last]), lim.err)
 			} else if lim.err != ErrBufferExceeded {
 				c.Violation("maxbuf-not-enforced", "SetMaxBuf(%d): a token of %d raw bytes exists, yet tokenization ended with Err()=%v after %d bytes", maxBuf, longest, lim.err, len(lcat))
